@@ -567,3 +567,19 @@ package ro
 //@   inv i == n
 //@   on next(ctx, value) when res(groups.Load, 1) : emits groups.Load(iteratee_1(ctx, value, n)), elem.NextWithContext(iteratee_0(ctx, value, n), value) ; n' = n + 1
 //@   on next(ctx, value) when !res(groups.Load, 1) : emits groups.Load(iteratee_1(ctx, value, n)), call.NewUnicastSubject(_), groups.Store(iteratee_1(ctx, value, n), res(call.NewUnicastSubject)), subject.NextWithContext(iteratee_0(ctx, value, n), value), Next(iteratee_0(ctx, value, n), res(call.NewUnicastSubject)) ; n' = n + 1
+
+//@ operator RaceWith
+//@   props C05 C14
+//@   note won is -1 until a source notifies; j is the index of the source these callbacks belong to
+//@   on next(ctx, value) when won == -1 || won == j : emits Next(ctx, value) ; post won' == j
+//@   on next(ctx, value) when won != -1 && won != j : emits ; post won' == won
+//@   on error(ctx, err) when won == -1 || won == j : emits Error(ctx, err)
+//@   on error(ctx, err) when won != -1 && won != j : emits ; post won' == won
+//@   on complete(ctx) when won == -1 || won == j : emits Complete(ctx)
+//@   on complete(ctx) when won != -1 && won != j : emits ; post won' == won
+
+//@ loop RaceWith$2$1$1#0
+//@   invariant 0 <= it && it <= len(ranged)
+
+//@ loop RaceWith$2$1#0
+//@   invariant 0 <= it && it <= len(ranged)
